@@ -30,6 +30,20 @@ CLAIMED["C12"] = dict(
     technique="contract-based deductive verification (representation invariant + abstract view, ghost state), SMT-discharged; bounded model-based stand-in",
 )
 
+CLAIMED["C10"] = dict(
+    category="proof",
+    text="verify_variadic_same_size / verify_variadic_attr_size / verify_variadic_size, irdl_build_arg_list and the generated segment "
+         "accessors are extracted from /repo and verified: verification succeeds EXACTLY when a legal split exists (both directions, "
+         "raise paths included), built size vectors satisfy the verifier, accessors return args[off:off+size]. Unbounded in list lengths and "
+         "segment sizes, instantiated for every kind sequence of up to 4 (quick) / 5 (thorough) declared constructs. Plus a bounded stand-in "
+         "running real Operation.verify/build/accessors on generated IRDL definitions.",
+    note="Bounded in the NUMBER of declared constructs (<=4/5); definition lists abstracted to kind sequences through isinstance (class "
+         "hierarchy re-read from the live classes each run); per-piece constraint checking is C09; get_construct_defs/get_op_constructs/"
+         "get_values bound as opaque expressions; pyvc + z3 trusted.",
+    design="§4 C10",
+    technique="contract-based deductive verification: VC generation from the real AST + SMT; iff-contracts on normal and exceptional exits; bounded native stand-in",
+)
+
 NOT_APPLICABLE = {
     "C04": "whole Printer∘Parser composition over every dialect: recursive string programs; no per-function contract within reach of the SMT-backed generator expresses it",
     "C05": "about 80 dialects of hand-written print/parse pairs and a format-string interpreter; same obstacle as C04",
@@ -43,7 +57,7 @@ NOT_APPLICABLE = {
     "C28": "result preservation of an e-graph pipeline: whole-program statement with no per-function postcondition implying it",
 }
 
-NOT_REACHED = ["C01", "C02", "C03", "C06", "C08", "C09", "C10", "C11", "C13", "C14", "C18", "C19", "C20", "C24", "C25", "C26", "C29"]
+NOT_REACHED = ["C01", "C02", "C03", "C06", "C08", "C09", "C11", "C13", "C14", "C18", "C19", "C20", "C24", "C25", "C26", "C29"]
 
 
 def main():
